@@ -397,8 +397,11 @@ def gboost_ctor_target():
 
 
 def gboost_target():
+    # make_rng is mapped although the unchanged sample() never calls it: a generator created inside sample() is then DECIDED (the callee
+    # precondition `rng == the member m_rng` fails) instead of ending as "call not mapped"
+    calls = G_CALLS + [(r'^make_rng\|', 'nv_make_rng({0})'), (r'^ctor\|std::optional<unsigned long>\|', '{0}')]
     f = Fn('gboost_sample', 'src/gboost/sampler.cpp', 'sample', flt='sampler_t::sample', self_struct='struct nv_gsampler',
-           types=G_TYPES, calls=G_CALLS, members=G_MEMBERS)
+           types=G_TYPES + [(r'^nano::seed_t$|^std::optional<unsigned long>$', 'uint64_t')], calls=calls, members=G_MEMBERS, hooks=[make_rng_hook])
     return Target('gboost_sample', [f], GH, replace=['sample_without_replacement', 'sample_with_replacement', 'sample_with_replacement_weighted'])
 
 
@@ -410,6 +413,8 @@ def rsplit_target():
              (r'^nano::rng_t$|linear_congruential_engine', 'struct nv_rng'), (r'splits_t$|^std::vector<std::pair<nano::tensor_t', 'struct nv_splits'),
              (r'^nano::seed_t$|^std::optional<unsigned long>$', 'uint64_t')]
     calls = [(r'^make_rng\|', 'nv_make_rng({0})'), (r'^ctor\|std::optional<unsigned long>\|', '{0}'),
+             # rng_t{seed}: what make_rng(seed) does (src/core/random.cpp)
+             (r'^ctor\|std::linear_congruential_engine<unsigned long, 48271, 0, 2147483647>\|void \(.*result_type\)', 'nv_make_rng({0})'),
              (r'^ctor\|nano::tensor_t<nano::tensor_vector_storage_t, long, 1>\|void \((const )?(long|nano::tensor_size_t)', 'nv_ixa_make({0})'),
              (r'^idiv\|long \(long, int\)', 'idiv_l_i({0}, {1})'), (r'^begin\|', 'nv_begin({&0})'), (r'^end\|', 'nv_end({&0})'),
              (r'^shuffle\|', 'nv_shuffle({0}, {1}, {&2})'), (r'^sort\|void \(long \*, long \*\)', 'nv_sort({0}, {1})'),
